@@ -720,3 +720,7 @@ def replay(case):
     run_job(tuple(tuple(x) if isinstance(x, list) else x
                   for x in case['job']), acc)
     return [v for exs in acc.viol_examples.values() for v in exs]
+
+
+RULE += (
+    ' Branch-level dividers also in dictionary form (named divider, user function with config). Copied processes of the two daughters share no mutable parameter object.')
